@@ -35,6 +35,7 @@ type vfC10Case struct {
 	Look   [][]int  `json:"look"` // [token, ...]: only element 0 is read here
 	Form   string   `json:"form"` // "int" | "str": type of the replication factor option values
 	Parts  []string `json:"parts"`
+	Down   []int    `json:"down"` // node ids whose state is DOWN while the ring and the replica map are built
 }
 
 type vfC10Entry struct {
@@ -54,6 +55,7 @@ type vfC10Vector struct {
 	RfDc   []string     `json:"rfdc"`
 	RfN    []int        `json:"rfn"`
 	Tokens []int        `json:"tokens"`
+	Down   []int        `json:"down"`
 	PClass string       `json:"pclass"` // none | mapsize | map-other | lookup | build
 	PMsg   string       `json:"pmsg"`
 	Map    []vfC10Entry `json:"map"`
@@ -100,6 +102,12 @@ func vfC10Hosts(c *vfC10Case, part string) []*HostInfo {
 			state:          NodeUp,
 		}
 	}
+	// placement does not depend on liveness: a down node still owns its tokens
+	for _, d := range c.Down {
+		if d >= 1 && d <= len(hosts) {
+			hosts[d-1].state = NodeDown
+		}
+	}
 	return hosts
 }
 
@@ -139,7 +147,7 @@ func vfC10Ids(idx map[*HostInfo]int, hs []*HostInfo) []int {
 // vfC10Run executes one case on the real code for one partitioner.
 func vfC10Run(c *vfC10Case, part string) (v vfC10Vector) {
 	v = vfC10Vector{ID: c.ID, Part: part, Form: c.Form, Ring: c.Ring, Dc: c.Dc, Rack: c.Rack, Strat: c.Strat,
-		RfDc: c.RfDc, RfN: c.RfN, Tokens: c.Tokens, PClass: "none", Map: []vfC10Entry{}, Look: []vfC10Entry{}}
+		RfDc: c.RfDc, RfN: c.RfN, Tokens: c.Tokens, Down: append([]int{}, c.Down...), PClass: "none", Map: []vfC10Entry{}, Look: []vfC10Entry{}}
 	stage := "build"
 	defer func() {
 		if r := recover(); r != nil {
@@ -331,6 +339,13 @@ func vfC10RandomCase(rnd *rand.Rand, id, maxNodes, maxVnodes int) *vfC10Case {
 		}
 		if c.RfDc == nil {
 			c.RfDc, c.RfN = []string{}, []int{}
+		}
+	}
+	// some nodes are down while the ring is built
+	c.Down = []int{}
+	for h := 1; h <= n; h++ {
+		if rnd.Intn(5) == 0 {
+			c.Down = append(c.Down, h)
 		}
 	}
 	// lookups: below the smallest, above the largest, equal to and between ring tokens
